@@ -306,4 +306,309 @@ theorem attach_closed_form (pts : Array (V3 K)) (point : Nat) (sil : Array (Nat 
         · rw [s1, b1, hnew]; rfl
         · rw [s4, b2, hnew]; rfl
 
+
+theorem getElem?_lt_of_some {α} (a : Array α) (i : Nat) (x : α) (h : a[i]? = some x) : i < a.size := by
+  rcases Nat.lt_or_ge i a.size with hlt | hge
+  · exact hlt
+  · rw [Array.getElem?_eq_none hge] at h; exact absurd h (by simp)
+
+theorem T3_get0 (a b c : Nat) : (⟨a, b, c⟩ : T3).get 0 = a := rfl
+theorem T3_get1 (a b c : Nat) : (⟨a, b, c⟩ : T3).get 1 = b := rfl
+theorem T3_get2 (a b c : Nat) : (⟨a, b, c⟩ : T3).get 2 = c := rfl
+
+/-- **the cone over a closed silhouette loop re-closes the surface** -/
+theorem attach_twin (pts : Array (V3 K)) (point : Nat) (sil : Array (Nat × Nat)) (removed : Array Nat)
+    (ts : Array (Facet K)) (und : Array Nat) (ts' : Array (Facet K)) (und' : Array Nat) (hp : PreAttach ts sil)
+    (h : attachAndPush pts point sil removed ts und = some (ts', und')) : Twin ts' := by
+  obtain ⟨ts1, nf, rfl, hs1, hs2, hA, hB⟩ := attach_closed_form pts point sil removed ts und ts' und' hp.pre h
+  have hsz : (ts1 ++ nf).size = ts.size + sil.size := by simp [hs1, hs2]
+  have hold : ∀ a, a < ts.size → tAt (ts1 ++ nf) a = tAt ts1 a := fun a ha => by
+    rw [tAt_append, if_pos (by omega)]
+  have hnew : ∀ q, tAt (ts1 ++ nf) (ts.size + q) = tAt nf q := fun q => by
+    rw [tAt_append, if_neg (by omega)]; congr 1; omega
+  intro i hi hv j hj
+  rw [hsz] at hi
+  by_cases hin : i < ts.size
+  · -- an old facet
+    rw [hold i hin] at hv ⊢
+    obtain ⟨a1, a2, a3⟩ := hA i
+    have hv0 : (tAt ts i).valid = true := by rw [← a1]; exact hv
+    obtain ⟨t1, t2, t3⟩ := hp.twinV i hin hv0 j hj
+    by_cases hex : ∃ q : Nat, sil[q]? = some (i, j)
+    · obtain ⟨q, hq⟩ := hex
+      obtain ⟨c1, c2⟩ := (a3 j hj).2 q hq
+      have hql := getElem?_lt_of_some _ _ _ hq
+      obtain ⟨b1, b2, b3, b4⟩ := hB q (i, j) hq
+      rw [c1, c2, hnew q, hsz]
+      refine ⟨by omega, by omega, b1, ?_, ?_, ?_, ?_⟩
+      · rw [b3]; rfl
+      · rw [b4]; rfl
+      · unfold first second; rw [b2, a2]; rfl
+      · unfold first second; rw [b2, a2]; rfl
+    · have hall : ∀ q : Nat, sil[q]? ≠ some (i, j) := fun q hq => hex ⟨q, hq⟩
+      obtain ⟨c1, c2⟩ := (a3 j hj).1 hall
+      have hgv : (tAt ts ((tAt ts i).adj.get j)).valid = true := by
+        cases hc : (tAt ts ((tAt ts i).adj.get j)).valid with
+        | true => rfl
+        | false => obtain ⟨q, hq⟩ := hp.complete i hin hv0 j hj hc; exact absurd hq (hall q)
+      obtain ⟨u1, u2, u3, u4⟩ := t3 hgv
+      rw [c1, c2, hold _ t1, hsz]
+      obtain ⟨g1, g2, g3⟩ := hA ((tAt ts i).adj.get j)
+      have hall2 : ∀ q : Nat, sil[q]? ≠ some ((tAt ts i).adj.get j, (tAt ts i).ind.get j) := fun q hq => by
+        have := (hp.pre.rng q _ _ hq).2.2.2
+        rw [u1, hv0] at this
+        exact absurd this (by simp)
+      obtain ⟨d1, d2⟩ := (g3 _ t2).1 hall2
+      refine ⟨by omega, t2, by rw [g1]; exact hgv, by rw [d1]; exact u1, by rw [d2]; exact u2, ?_, ?_⟩
+      · unfold first second at u3 ⊢; rw [g2, a2]; exact u3
+      · unfold first second at u4 ⊢; rw [g2, a2]; exact u4
+  · -- a new facet
+    obtain ⟨q, rfl⟩ : ∃ q, i = ts.size + q := ⟨i - ts.size, by omega⟩
+    have hq : q < sil.size := by omega
+    have hm : 0 < sil.size := by omega
+    rw [hnew q] at hv ⊢
+    have hsq : sil[q]? = some ((sil[q]?).getD (0, 0)) := by simp [hq]
+    generalize (sil[q]?).getD (0, 0) = e at hsq
+    obtain ⟨b1, b2, b3, b4⟩ := hB q e hsq
+    rcases lt3 hj with rfl | rfl | rfl
+    · -- edge 0: the previous facet of the fan
+      rw [b3, b4, T3_get0, T3_get0]
+      obtain ⟨p, hp1, hp2, hp3⟩ : ∃ p, prevOf ts.size sil.size q = ts.size + p ∧ p < sil.size ∧ (p + 1) % sil.size = q := by
+        unfold prevOf
+        by_cases h0 : q = 0
+        · subst h0
+          refine ⟨sil.size - 1, by rw [if_pos rfl]; omega, by omega, ?_⟩
+          have : sil.size - 1 + 1 = sil.size := by omega
+          rw [this, Nat.mod_self]
+        · refine ⟨q - 1, by rw [if_neg h0]; omega, by omega, ?_⟩
+          have : q - 1 + 1 = q := by omega
+          rw [this, Nat.mod_eq_of_lt hq]
+      have hsp : sil[p]? = some ((sil[p]?).getD (0, 0)) := by simp [hp2]
+      generalize (sil[p]?).getD (0, 0) = e' at hsp
+      obtain ⟨e1, e2, e3, e4⟩ := hB p e' hsp
+      rw [hp1, hnew p, hsz]
+      refine ⟨by omega, by omega, e1, ?_, ?_, ?_, ?_⟩
+      · rw [e3, T3_get2]; unfold nextOf; rw [hp3]
+      · rw [e4]; rfl
+      · unfold first second; rw [e2, b2]
+        show firstOf ts e' = secondOf ts e
+        exact (hp.loop p e' e hsp (by rw [hp3]; exact hsq)).symm
+      · unfold first second; rw [e2, b2]; rfl
+    · -- edge 1: the facet on the other side of the silhouette edge
+      obtain ⟨ea, ej⟩ := e
+      obtain ⟨r1, r2, r3, r4⟩ := hp.pre.rng q ea ej hsq
+      rw [b3, b4, T3_get1, T3_get1, hold ea r1, hsz]
+      obtain ⟨g1, g2, g3⟩ := hA ea
+      obtain ⟨d1, d2⟩ := (g3 ej r2).2 q hsq
+      refine ⟨by omega, r2, by rw [g1]; exact hp.vld q ea ej hsq, d1, d2, ?_, ?_⟩
+      · unfold first second; rw [g2, b2]; rfl
+      · unfold first second; rw [g2, b2]; rfl
+    · -- edge 2: the next facet of the fan
+      rw [b3, b4, T3_get2, T3_get2]
+      have hq' : (q + 1) % sil.size < sil.size := Nat.mod_lt _ hm
+      have hsn : sil[(q + 1) % sil.size]? = some ((sil[(q + 1) % sil.size]?).getD (0, 0)) := by simp [hq']
+      generalize (sil[(q + 1) % sil.size]?).getD (0, 0) = e' at hsn
+      obtain ⟨e1, e2, e3, e4⟩ := hB _ e' hsn
+      unfold nextOf
+      rw [hnew _, hsz]
+      refine ⟨by omega, by omega, e1, ?_, ?_, ?_, ?_⟩
+      · rw [e3, T3_get0]; unfold prevOf
+        by_cases hlt : q + 1 < sil.size
+        · rw [Nat.mod_eq_of_lt hlt, if_neg (by omega)]; omega
+        · have : q + 1 = sil.size := by omega
+          rw [this, Nat.mod_self, if_pos rfl]; omega
+      · rw [e4]; rfl
+      · unfold first second; rw [e2, b2]; rfl
+      · unfold first second; rw [e2, b2]
+        show secondOf ts e' = firstOf ts e
+        exact hp.loop q e e' hsq hsn
+
+
+/-! ## `compute_silhouette` -/
+
+/-- `a` is `b` with some facets invalidated (nothing else changes) -/
+def Shrunk (a b : Array (Facet K)) : Prop :=
+  a.size = b.size ∧ ∀ i, (tAt a i).adj = (tAt b i).adj ∧ (tAt a i).ind = (tAt b i).ind ∧ (tAt a i).pts = (tAt b i).pts ∧
+    (tAt a i).affDep = (tAt b i).affDep ∧ (tAt a i).normal = (tAt b i).normal ∧ (tAt a i).vis = (tAt b i).vis ∧
+    ((tAt a i).valid = true → (tAt b i).valid = true)
+
+theorem Shrunk.refl (a : Array (Facet K)) : Shrunk a a := ⟨rfl, fun _ => ⟨rfl, rfl, rfl, rfl, rfl, rfl, id⟩⟩
+
+theorem Shrunk.trans {a b c : Array (Facet K)} (h1 : Shrunk a b) (h2 : Shrunk b c) : Shrunk a c := by
+  refine ⟨h1.1.trans h2.1, fun i => ?_⟩
+  obtain ⟨a1, a2, a3, a4, a5, a6, a7⟩ := h1.2 i
+  obtain ⟨b1, b2, b3, b4, b5, b6, b7⟩ := h2.2 i
+  exact ⟨a1.trans b1, a2.trans b2, a3.trans b3, a4.trans b4, a5.trans b5, a6.trans b6, fun h => b7 (a7 h)⟩
+
+theorem tAt_invalidate (ts : Array (Facet K)) (i a : Nat) :
+    tAt (invalidate ts i) a = if i = a ∧ i < ts.size then { tAt ts i with valid := false } else tAt ts a := by
+  unfold invalidate; rw [tAt_set]
+
+theorem shrunk_invalidate (ts : Array (Facet K)) (i : Nat) : Shrunk (invalidate ts i) ts := by
+  refine ⟨by simp [invalidate], fun a => ?_⟩
+  rw [tAt_invalidate]
+  by_cases hc : i = a ∧ i < ts.size
+  · rw [if_pos hc]; obtain ⟨rfl, _⟩ := hc
+    exact ⟨rfl, rfl, rfl, rfl, rfl, rfl, fun h => absurd h (by simp)⟩
+  · rw [if_neg hc]; exact ⟨rfl, rfl, rfl, rfl, rfl, rfl, id⟩
+
+theorem invalidate_valid (ts : Array (Facet K)) (i : Nat) : (tAt (invalidate ts i) i).valid = false := by
+  rw [tAt_invalidate]
+  by_cases hc : i < ts.size
+  · rw [if_pos ⟨rfl, hc⟩]
+  · rw [if_neg (fun h => hc h.2)]
+    unfold tAt; rw [Array.getElem?_eq_none (by omega)]; rfl
+
+theorem seenBy_congr (f g : Facet K) (p : Nat) (pts : Array (V3 K)) (h1 : f.affDep = g.affDep) (h2 : f.pts = g.pts)
+    (h3 : f.normal = g.normal) : f.seenBy p pts = g.seenBy p pts := by
+  unfold Facet.seenBy; rw [h1, h2, h3]
+
+/-- invariant of the silhouette search around `point`, relative to the facet array `ts0` at the start of the step -/
+structure SilInv (ts0 : Array (Facet K)) (pts : Array (V3 K)) (point : Nat) (s : Sil K) : Prop where
+  shr : Shrunk s.ts ts0
+  out : ∀ (q a j : Nat), s.out[q]? = some (a, j) → a < ts0.size ∧ j < 3 ∧ (tAt s.ts a).valid = true ∧
+    (tAt ts0 a).seenBy point pts = false ∧ (tAt s.ts ((tAt ts0 a).adj.get j)).valid = false
+
+theorem computeSilhouette_inv (ts0 : Array (Facet K)) (pts : Array (V3 K)) (point : Nat) (hT : Twin ts0) :
+    ∀ (fuel facet iid : Nat) (s : Sil K), SilInv ts0 pts point s → facet < ts0.size → iid < 3 →
+      (tAt s.ts ((tAt ts0 facet).adj.get iid)).valid = false →
+      SilInv ts0 pts point (computeSilhouette pts point fuel facet iid s) ∧
+      Shrunk (computeSilhouette pts point fuel facet iid s).ts s.ts := by
+  intro fuel
+  induction fuel with
+  | zero => intro facet iid s hs _ _ _; exact ⟨hs, Shrunk.refl _⟩
+  | succ fuel ih =>
+    intro facet iid s hs hf hi hcaller
+    unfold computeSilhouette
+    obtain ⟨e1, e2, e3, e4, e5, e6, e7⟩ := hs.shr.2 facet
+    by_cases hv : (tAt s.ts facet).valid = true
+    · simp only [hv, if_true]
+      have hseen : (tAt s.ts facet).seenBy point pts = (tAt ts0 facet).seenBy point pts := seenBy_congr _ _ _ _ e4 e3 e5
+      by_cases hsb : (tAt s.ts facet).seenBy point pts = true
+      · simp only [hsb, Bool.not_true, Bool.false_eq_true, if_false]
+        -- the facet is removed; two nested searches
+        have hv0 : (tAt ts0 facet).valid = true := e7 hv
+        have hshr1 : Shrunk (invalidate s.ts facet) s.ts := shrunk_invalidate _ _
+        have hs1 : SilInv ts0 pts point { s with ts := invalidate s.ts facet, removed := s.removed.push facet } := by
+          refine ⟨hshr1.trans hs.shr, fun q a j hq => ?_⟩
+          obtain ⟨o1, o2, o3, o4, o5⟩ := hs.out q a j hq
+          have hne : facet ≠ a := fun hh => by subst hh; rw [← hseen, hsb] at o4; exact absurd o4 (by simp)
+          refine ⟨o1, o2, ?_, o4, ?_⟩
+          · show (tAt (invalidate s.ts facet) a).valid = true
+            rw [tAt_invalidate, if_neg (fun h => hne h.1)]; exact o3
+          · show (tAt (invalidate s.ts facet) _).valid = false
+            cases hc : (tAt (invalidate s.ts facet) ((tAt ts0 a).adj.get j)).valid with
+            | false => rfl
+            | true => have := (hshr1.2 _).2.2.2.2.2.2 hc; rw [o5] at this; exact absurd this (by simp)
+        have hinvf : (tAt (invalidate s.ts facet) facet).valid = false := invalidate_valid _ _
+        have hj1 : (iid + 1) % 3 < 3 := Nat.mod_lt _ (by omega)
+        have hj2 : (iid + 2) % 3 < 3 := Nat.mod_lt _ (by omega)
+        obtain ⟨t1, t2, _, t4, _, _, _⟩ := hT facet hf hv0 _ hj1
+        obtain ⟨u1, u2, _, u4, _, _, _⟩ := hT facet hf hv0 _ hj2
+        rw [e1, e2]
+        obtain ⟨r1, r2⟩ := ih _ _ _ hs1 t1 t2 (by show (tAt (invalidate s.ts facet) _).valid = false; rw [t4]; exact hinvf)
+        have hinvf2 : (tAt (computeSilhouette pts point fuel ((tAt ts0 facet).adj.get ((iid + 1) % 3))
+            ((tAt ts0 facet).ind.get ((iid + 1) % 3))
+            { s with ts := invalidate s.ts facet, removed := s.removed.push facet }).ts facet).valid = false := by
+          cases hc : (tAt (computeSilhouette pts point fuel ((tAt ts0 facet).adj.get ((iid + 1) % 3))
+            ((tAt ts0 facet).ind.get ((iid + 1) % 3))
+            { s with ts := invalidate s.ts facet, removed := s.removed.push facet }).ts facet).valid with
+          | false => rfl
+          | true => have := (r2.2 facet).2.2.2.2.2.2 hc; rw [hinvf] at this; exact absurd this (by simp)
+        obtain ⟨q1, q2⟩ := ih _ _ _ r1 u1 u2 (by rw [u4]; exact hinvf2)
+        exact ⟨q1, q2.trans (r2.trans hshr1)⟩
+      · have hsb' : (tAt s.ts facet).seenBy point pts = false := by
+          cases hc : (tAt s.ts facet).seenBy point pts with
+          | false => rfl
+          | true => exact absurd hc hsb
+        simp only [hsb', Bool.not_false, if_true]
+        refine ⟨⟨hs.shr, fun q a j hq => ?_⟩, Shrunk.refl _⟩
+        by_cases hql : q < s.out.size
+        · rw [Array.getElem?_push_lt hql] at hq
+          exact hs.out q a j (by rw [← hq]; simp [hql])
+        · have hqe : q = s.out.size := by
+            have := getElem?_lt_of_some _ _ _ hq
+            simp at this; omega
+          subst hqe
+          simp only [Array.getElem?_push_size, Option.some.injEq, Prod.mk.injEq] at hq
+          obtain ⟨rfl, rfl⟩ := hq
+          exact ⟨hf, hi, hv, by rw [← hseen]; exact hsb', hcaller⟩
+    · have hv' : (tAt s.ts facet).valid = false := by
+        cases hc : (tAt s.ts facet).valid with
+        | false => rfl
+        | true => exact absurd hc hv
+      simp only [hv', Bool.false_eq_true, if_false]
+      exact ⟨hs, Shrunk.refl _⟩
+
+
+theorem valid_false_of_shrunk {a b : Array (Facet K)} (h : Shrunk a b) (i : Nat) (hb : (tAt b i).valid = false) :
+    (tAt a i).valid = false := by
+  cases hc : (tAt a i).valid with
+  | false => rfl
+  | true => have := (h.2 i).2.2.2.2.2.2 hc; rw [hb] at this; exact absurd this (by simp)
+
+theorem silhouetteStep_inv (ts : Array (Facet K)) (pts : Array (V3 K)) (point i : Nat) (hT : Twin ts) (hi : i < ts.size)
+    (hv : (tAt ts i).valid = true) :
+    SilInv ts pts point (silhouetteStep pts point i ts) ∧ (tAt (silhouetteStep pts point i ts).ts i).valid = false := by
+  unfold silhouetteStep
+  simp only
+  have h0 : SilInv ts pts point ⟨#[], #[i], invalidate ts i⟩ :=
+    ⟨shrunk_invalidate _ _, fun q a j hq => absurd hq (by simp)⟩
+  have hi0 : (tAt (invalidate ts i) i).valid = false := invalidate_valid _ _
+  obtain ⟨a1, a2, _, a4, _, _, _⟩ := hT i hi hv 0 (by omega)
+  obtain ⟨b1, b2, _, b4, _, _, _⟩ := hT i hi hv 1 (by omega)
+  obtain ⟨c1, c2, _, c4, _, _, _⟩ := hT i hi hv 2 (by omega)
+  obtain ⟨r1, r2⟩ := computeSilhouette_inv ts pts point hT (ts.size + 1) _ _ _ h0 a1 a2 (by rw [a4]; exact hi0)
+  have hi1 := valid_false_of_shrunk r2 i hi0
+  obtain ⟨s1, s2⟩ := computeSilhouette_inv ts pts point hT (ts.size + 1) _ _ _ r1 b1 b2 (by rw [b4]; exact hi1)
+  have hi2 := valid_false_of_shrunk s2 i hi1
+  obtain ⟨t1, t2⟩ := computeSilhouette_inv ts pts point hT (ts.size + 1) _ _ _ s1 c1 c2 (by rw [c4]; exact hi2)
+  exact ⟨t1, valid_false_of_shrunk t2 i hi2⟩
+
+/-- the three combinatorial facts about the silhouette that are NOT proved in general (they are what `fix_silhouette_topology`
+tries to restore when rounding breaks them): no half-edge listed twice, every half-edge facing a removed facet listed, one closed loop -/
+structure ClosedLoop (ts : Array (Facet K)) (sil : Array (Nat × Nat)) : Prop where
+  nd : ∀ (i i' : Nat) (e : Nat × Nat), sil[i]? = some e → sil[i']? = some e → i = i'
+  complete : ∀ a, a < ts.size → (tAt ts a).valid = true → ∀ j, j < 3 →
+    (tAt ts ((tAt ts a).adj.get j)).valid = false → ∃ i : Nat, sil[i]? = some (a, j)
+  loop : ∀ (i : Nat) (e e' : Nat × Nat), sil[i]? = some e → sil[(i + 1) % sil.size]? = some e' → secondOf ts e' = firstOf ts e
+
+theorem preAttach_of_silInv (ts0 : Array (Facet K)) (pts : Array (V3 K)) (point : Nat) (s : Sil K) (hT : Twin ts0)
+    (hs : SilInv ts0 pts point s) (hc : ClosedLoop s.ts s.out) : PreAttach s.ts s.out := by
+  have hsz := hs.shr.1
+  refine ⟨⟨fun q a j hq => ?_, hc.nd⟩, fun q a j hq => (hs.out q a j hq).2.2.1, hc.complete, hc.loop, fun a ha hv j hj => ?_⟩
+  · obtain ⟨o1, o2, o3, _, o5⟩ := hs.out q a j hq
+    obtain ⟨e1, _, _, _, _, _, e7⟩ := hs.shr.2 a
+    obtain ⟨t1, _⟩ := hT a o1 (e7 o3) j o2
+    rw [e1, hsz]
+    exact ⟨o1, o2, t1, o5⟩
+  · obtain ⟨e1, e2, e3, _, _, _, e7⟩ := hs.shr.2 a
+    obtain ⟨t1, t2, _, t4, t5, t6, t7⟩ := hT a (by omega) (e7 hv) j hj
+    obtain ⟨g1, g2, g3, _⟩ := hs.shr.2 ((tAt ts0 a).adj.get j)
+    rw [e1, e2, hsz]
+    refine ⟨t1, t2, fun _ => ?_⟩
+    unfold first second at t6 t7 ⊢
+    rw [g1, g2, g3, e3]
+    exact ⟨t4, t5, t6, t7⟩
+
+theorem twin_of_sameLinks {a b : Array (Facet K)} (h : SameLinks a b) (hb : Twin b) : Twin a := by
+  intro i hi hv j hj
+  obtain ⟨e1, e2, e3, e4⟩ := h.2 i
+  obtain ⟨t1, t2, t3, t4, t5, t6, t7⟩ := hb i (by rw [← h.1]; exact hi) (by rw [← e1]; exact hv) j hj
+  obtain ⟨g1, g2, g3, g4⟩ := h.2 ((tAt b i).adj.get j)
+  unfold first second at t6 t7 ⊢
+  rw [e2, e3, e4, g1, g2, g3, g4, h.1]
+  exact ⟨t1, t2, t3, t4, t5, t6, t7⟩
+
+/-- the two initial facets `(p1,p2,p3)` / `(p2,p1,p3)` with the links set by `try_get_initial_mesh` -/
+theorem twin_initial (f1 f2 : Facet K) (p1 p2 p3 : Nat) (h1 : f1.valid = true) (h2 : f2.valid = true)
+    (a1 : f1.adj = ⟨1, 1, 1⟩) (i1 : f1.ind = ⟨0, 2, 1⟩) (q1 : f1.pts = ⟨p1, p2, p3⟩)
+    (a2 : f2.adj = ⟨0, 0, 0⟩) (i2 : f2.ind = ⟨0, 2, 1⟩) (q2 : f2.pts = ⟨p2, p1, p3⟩) : Twin #[f1, f2] := by
+  intro i hi _ j hj
+  have hi' : i = 0 ∨ i = 1 := by simp at hi; omega
+  have t0 : tAt #[f1, f2] 0 = f1 := rfl
+  have t1 : tAt #[f1, f2] 1 = f2 := rfl
+  rcases hi' with rfl | rfl <;> rcases lt3 hj with rfl | rfl | rfl <;>
+    simp [t0, t1, a1, a2, i1, i2, q1, q2, h1, h2, T3.get, first, second]
+
 end C12.H3
